@@ -45,13 +45,3 @@ fn fmt_v1_unknown_and_header() {
     let h = ppp::v1::Header::new("PROXY UNKNOWN\r\n", Addresses::Unknown);
     assert!(h.to_string().as_bytes() == b"PROXY UNKNOWN\r\n");
 }
-
-/// bounded stand-in (C08, C15; quick tier): one concrete TCP4 value and one concrete TCP6 value with
-/// pairwise distinct fields print as `PROXY TCPn <src> <dst> <sport> <dport>\r\n` - source before
-/// destination, addresses before ports, single spaces, CRLF
-#[kani::proof]
-#[kani::unwind(64)]
-fn fmt_v1_tcp4_concrete() {
-    let a = Addresses::new_tcp4(Ipv4Addr::new(1, 2, 3, 4), Ipv4Addr::new(5, 6, 7, 8), 9, 10);
-    assert!(a.to_string().as_bytes() == b"PROXY TCP4 1.2.3.4 5.6.7.8 9 10\r\n");
-}
